@@ -358,6 +358,33 @@ def check_link(ck, sid, lines, out, kind, al):
     return bad
 
 
+def gen_up_starve(rng, al, sc):
+    """unbalanced primary with two slaves: one can be reached (answers REQUEST STATUS OF LINK) but never confirms RESET REMOTE LINK and
+    sends rubbish now and then; the other one must keep being served"""
+    from props import c14
+    a, b = (c14.OWN[al], c14.OWN[al] + 1) if al else (0, 0)
+    lines = ["cfg kind=up al=%d sc=%d slaves=%d,%d" % (al, sc, a, b), "autostatus a=%d" % a]
+    for i in range(160):
+        lines.append("tick %d" % rng.choice([20, 50, 100, 250]))
+        if rng.chance(1, 12):
+            lines.append("feed " + hx(rng.bytes(rng.range(1, 6))))
+    return lines, a, b
+
+
+def check_up_starve(lines, out, al, b):
+    # in the second half of the script some frame must be addressed to the healthy slave
+    half = len(out) // 2
+    tx_b = 0
+    for l in out[half:]:
+        if l.startswith("tx 10") and al:
+            f = bytes.fromhex(l.split()[1])
+            adr = f[2] if al == 1 else f[2] | (f[3] << 8)
+            tx_b += adr == b
+    if al and tx_b == 0:
+        return [("starved", "unbalanced primary (address width %d): slave %d answers the status request but never confirms the reset; slave %d is never addressed any more in the second half of the run (%d trace lines)" % (al, b - 1, b, len(out) - half))]
+    return []
+
+
 # ------------------------------------------------------------------ D: CS101 master + slaves with injected frames
 def gen_cs101(rng, stats, nops):
     mode = rng.choice(["bal", "unb"])
@@ -550,6 +577,12 @@ def run(ck):
     go("cs104-server", hsrv, sscripts, lambda sid, lines, out: check_server(ck, sid, lines, out, smeta[sid]))
     go("cs104-client", hcli, cscripts, lambda sid, lines, out: check_client(ck, sid, lines, out))
     go("cs101-link", L.h_ll(), lscripts, lambda sid, lines, out: check_link(ck, sid, lines, out, *lmeta[sid]))
+    uscripts, umeta = [], {}
+    for i in range(8 if quick else 80):
+        al, sc = rng.choice([1, 1, 2]), rng.below(2)
+        ul, a_, b_ = gen_up_starve(rng, al, sc)
+        uscripts.append(("us%d" % i, ul)); umeta["us%d" % i] = (al, b_)
+    go("cs101-link", L.h_ll(), uscripts, lambda sid, lines, out: check_up_starve(lines, out, *umeta[sid]))
     go("cs101-stack", L.h_cs101(), dscripts, lambda sid, lines, out: check_cs101(ck, sid, lines, out))
     go("file-service", c20.harness(), fscripts, lambda sid, lines, out: check_file(ck, sid, lines, out, fmeta[sid]))
     for k_, v in sorted(stats.items()):
